@@ -5,7 +5,7 @@ from urllib.parse import urljoin
 from xml.etree import ElementInclude as xinclude
 from xml.etree import ElementTree as etree
 
-from xsdata.exceptions import XmlHandlerError
+from xsdata.exceptions import ParserError, XmlHandlerError
 from xsdata.formats.dataclass.parsers.mixins import XmlHandler
 from xsdata.models.enums import EventType
 from xsdata.utils import namespaces
@@ -40,7 +40,7 @@ class XmlEventHandler(XmlHandler):
             xinclude.include(root, loader=loader)
             ctx = iterwalk(root, {})
         else:
-            ctx = etree.iterparse(source, EVENTS)  # nosec
+            ctx = iterdecode(etree.iterparse(source, EVENTS))  # nosec
 
         return self.process_context(ctx, ns_map)
 
@@ -113,6 +113,24 @@ class XmlEventHandler(XmlHandler):
             result[prefix] = uri
 
         return result
+
+
+def iterdecode(context: Iterable[tuple[str, Any]]) -> Iterator[tuple[str, Any]]:
+    """Iterate the parser events and report decoding errors as parsing errors.
+
+    The expat parser raises lookup and unicode errors for documents with
+    an unknown or mismatched encoding declaration.
+
+    Args:
+        context: The iterable xml context
+
+    Yields:
+        An iterator of events
+    """
+    try:
+        yield from context
+    except (LookupError, UnicodeError) as e:
+        raise ParserError(e)
 
 
 def iterwalk(element: etree.Element, ns_map: dict) -> Iterator[tuple[str, Any]]:
